@@ -2,7 +2,7 @@ CONSTANTS
   Dev = {}
   Mode = "dgram"
   NConn = 1
-  MaxReq = 4
+  MaxReq = 6
   QCapG = 1
   Kinds = {"single", "stream2", "fail", "rfail", "empty"}
   MaxOps = 0
